@@ -389,6 +389,18 @@ class Interp:
                         return False
             d = self.decide("%r %s 0" % (p.e, p.op))
             self.facts.refine(p.e, ts if d else (ALLSIGNS - ts))
+            cm = p.e.as_mono()
+            qa = cm[1][0][0] if cm is not None and cm[0] == alg.C1 and len(cm[1]) == 1 and cm[1][0][1] == 1 else None
+            if qa is not None and qa.kind == "fn" and (qa.name.startswith("any:") or qa.name.startswith("all:")) and p.op == "!=" and qa.name.endswith("0"):
+                # a quantified test says something about the generic entry in one direction only: "no entry satisfies c" gives
+                # not-c for every entry, "all entries satisfy c" gives c
+                qop = qa.name[4:-1]
+                inner = qa.args[0]
+                if qop in TRUESET and isinstance(inner, Expr):
+                    if qa.name.startswith("any:") and not d:
+                        self.facts.refine(inner, ALLSIGNS - TRUESET[qop])
+                    elif qa.name.startswith("all:") and d:
+                        self.facts.refine(inner, TRUESET[qop])
             self.constraints.append((p.e, p.op, d))
             return d
         if isinstance(p, BoolCombo):
